@@ -536,7 +536,7 @@ impl Property for C12 {
             component_weight: 5,
             ..SemCfg::default()
         };
-        let sc = sem_case(c, cfg, true, 3, json!({"fireListeners": true}));
+        let sc = sem_case(c, cfg, true, 3, json!({"fireListeners": true, "callThunks": true}));
         let mut case = sc.case;
         let mut on = sc.opts.clone();
         on.optimize = true;
@@ -545,6 +545,16 @@ impl Property for C12 {
         case.options = Some(on.json());
         case.extra["options_off"] = json!(off.json());
         case.extra["refs"] = json!([]);
+        if c.chance(1, 5) {
+            // a variable reassigned to a component that uses it as its sole child (the capture
+            // path); whatever it evaluates to, it must be the same under both settings
+            let at = case.source.find("export const __read").unwrap_or(case.source.len());
+            case.source.insert_str(
+                at,
+                "export const thunkR = () => {\n  let rv = x;\n  rv = y;\n  rv = <C1>{rv}</C1>;\n  return rv;\n};\n",
+            );
+            case.label("reassigned-variable-as-sole-child");
+        }
         case.nontrivial = true; // refined by the judge (outputs differ)
         env_key(&mut case);
         case
@@ -590,6 +600,6 @@ impl Property for C12 {
         }
     }
     fn required_labels(&self) -> Vec<&'static str> {
-        vec!["spread", "v-slots", "vmodel-component", "directive-kebab", "host=bound-component"]
+        vec!["spread", "v-slots", "vmodel-component", "directive-kebab", "host=bound-component", "reassigned-variable-as-sole-child"]
     }
 }
